@@ -132,7 +132,10 @@ pub struct Watchdog(pub &'static str);
 impl Shared {
     fn log(&mut self, f: impl FnOnce() -> String) {
         if let Some(t) = &mut self.trace {
+            t.append(&mut self.oracle.flag_log);
             t.push(f());
+        } else {
+            self.oracle.flag_log.clear();
         }
     }
 
@@ -280,6 +283,7 @@ impl Shared {
         match opts[i] {
             0 => {
                 self.progress += 1;
+                self.oracle.flush_ok(c);
                 if self.cfg.io.deliver_on_flush {
                     let held = std::mem::take(&mut self.held);
                     let (mine, rest): (Vec<_>, Vec<_>) = held.into_iter().partition(|h| h.0 == c);
